@@ -35,3 +35,16 @@ func VerifHTMLOptionsImmutable(n int) {
 }
 
 func verifOptM() *minify.M { return minify.New() }
+
+// VerifHTMLSharedState (C13): one call with symbolic options, with or without the inline parameter, on a shared option
+// struct and a shared *minify.M, under the write-set monitor: no store to memory that existed before the call.
+func VerifHTMLSharedState(n int) {
+	o := &Minifier{KeepComments: vBool("a"), KeepConditionalComments: vBool("b"), KeepSpecialComments: vBool("c"), KeepDefaultAttrVals: vBool("d"), KeepDocumentTags: vBool("e"), KeepEndTags: vBool("f"), KeepQuotes: vBool("g"), KeepWhitespace: vBool("h")}
+	m := verifOptM()
+	var params map[string]string
+	if vBool("inlineparam") {
+		params = map[string]string{"inline": "1"}
+	}
+	in := verifSharedInput(n, verifHTMLDocs)
+	verifNoSharedWrite(in, func(w *vWriter, r *vReader) error { return o.Minify(m, w, r, params) })
+}
